@@ -254,6 +254,9 @@ where
     A: Allocator,
 {
     pub fn with_capacity(capacity: usize, allocator: A) -> Result<Self, MapError> {
+        // probing masks with `capacity - 1`: the capacity has to be a power of two (and, like in
+        // `adjust_capacity`, at least four)
+        let capacity = capacity.max(4).next_power_of_two();
         unsafe {
             let (keys, values) = Self::alloc_storage(&allocator, capacity)?;
             let res = Self {
